@@ -1,0 +1,13 @@
+//go:build verif
+
+package reader
+
+import "github.com/containerd/stargz-snapshotter/cache"
+
+// Verification hooks (build tag "verif" only) for property C15. No behaviour change.
+
+// VerifCacheC15 returns the chunk cache (fscache) of the reader.
+func (vr *VerifiableReader) VerifCacheC15() cache.BlobCache { return vr.r.cache }
+
+// VerifGenIDC15 is the chunk cache key of chunk (offset,size) of the file with the given metadata id.
+func VerifGenIDC15(id uint32, offset, size int64) string { return genID(id, offset, size) }
